@@ -14,7 +14,7 @@ LEVEL = "exploration"
 RULE = (
     "cases = call-only DAG programs (3-8 sites) whose last 1-3 sites are debug nodes (chains of debug nodes, debug "
     "nodes with several parents, constant and variable inputs), 0-1 setup sites, executed with RUN_DEBUG_NODES off and "
-    "on in mode call / executor(R, X, T - selections may name debug sites) / setup(), sync and async; plus invalid "
+    "on in mode call / executor(R, X, T - selections may name debug sites) / setup(), sync and async, on a fresh DAG per setting or with both settings one after the other on ONE DAG object (either order); plus invalid "
     "programs where a non-debug site takes a debug result as argument, keyword argument, flag or indexed value. "
     "oracle: flag off -> zero debug entries in every mode; flag on + whole call -> every debug site entered exactly "
     "once; flag on + selection -> every debug site that ran although it is outside the documented closure received "
@@ -27,7 +27,7 @@ ASSUMPTIONS = [
     "a debug node the user selected explicitly while one of its parents is not executed is not judged",
     "cfg.RUN_DEBUG_NODES is set by the harness around each run and restored",
 ]
-BUDGET = {"quick": {"shards": 4, "seconds": 40}, "thorough": {"shards": 16, "seconds": 420}}
+BUDGET = {"quick": {"shards": 8, "seconds": 40}, "thorough": {"shards": 16, "seconds": 420}}
 
 
 def _run(P: Dict[str, Any], case: Dict[str, Any], flag: bool, built: Any = None) -> Dict[str, Any]:
